@@ -37,7 +37,7 @@ worker() {
 for k in $(seq 1 $N); do worker $k & done
 wait
 git -C /repo worktree prune
-cat $base/out.* 2>/dev/null | grep -v '^handmade/' | sort -V > seeded/RESULTS_$tier.txt
-cat $base/out.* 2>/dev/null | grep '^handmade/' | sed 's#^handmade/##' | sort > seeded/RESULTS_handmade_$tier.txt
+cat $base/out.* 2>/dev/null | grep -v '^handmade/' | sed 's#/tmp/verif-par-[A-Za-z0-9]*/verif[0-9]*/#/verif/#g' | sort -V > seeded/RESULTS_$tier.txt
+cat $base/out.* 2>/dev/null | grep '^handmade/' | sed 's#^handmade/##' | sed 's#/tmp/verif-par-[A-Za-z0-9]*/verif[0-9]*/#/verif/#g' | sort > seeded/RESULTS_handmade_$tier.txt
 rm -rf $base
 echo "seeded: $(grep -c . seeded/RESULTS_$tier.txt) lines, not caught: $(grep -vc ' CAUGHT \| SUPERSEDED ' seeded/RESULTS_$tier.txt); handmade: $(grep -c . seeded/RESULTS_handmade_$tier.txt) lines, not caught: $(grep -vc ' CAUGHT ' seeded/RESULTS_handmade_$tier.txt)"
